@@ -929,6 +929,8 @@ class Interp(object):
         cv = concrete(v)
         if is_concrete(v):
             return self.models.truthy_concrete(cv)
+        if type(v).__name__ in ('ASet', 'AIter'):
+            return bool(v.items) if type(v).__name__ == 'ASet' else True
         if isinstance(v, AList):
             if not v.unknown:
                 return bool(v.items)
